@@ -350,10 +350,24 @@ def run(ctx: Ctx) -> None:
         arg = n.args[0] if n.args else None
         inner = arg.args[0] if isinstance(arg, ast.Call) and arg.args else arg
         desc = "accept_module registers exactly the given name / module.__name__"
+        def _names_module(e_: Optional[ast.AST], depth: int = 0) -> bool:
+            """the given name itself or `<the given module>.__name__` (possibly chosen by a test, possibly through a local)"""
+            if e_ is None or depth > 3:
+                return False
+            if isinstance(e_, ast.Attribute) and e_.attr == "__name__":
+                return isinstance(e_.value, ast.Name) and _names_module(e_.value, depth + 1)
+            if isinstance(e_, ast.IfExp):
+                return _names_module(e_.body, depth + 1) and _names_module(e_.orelse, depth + 1)
+            if isinstance(e_, ast.Name):
+                try:
+                    ds_ = fl.defs_of_use(e_)
+                except Exception:
+                    return e_.id in accept.params
+                return bool(ds_) and all(d.kind == "param" or _names_module(d.value, depth + 1) for d in ds_)
+            return False
         ok = False
-        if isinstance(inner, ast.Name) and inner.id in accept.params:
-            defs = fl.defs_of_use(inner)
-            ok = all(d.kind == "param" or (d.value is not None and isinstance(d.value, ast.Attribute) and d.value.attr == "__name__") for d in defs)
+        if isinstance(inner, ast.Name):
+            ok = _names_module(inner)
         cond = [a for a in f.module.parent and _ancestors_if(f, n)]
         if ok and not cond:
             rep.ok("C14.R3", accept.qname, desc, accept.loc(n))
